@@ -525,7 +525,8 @@ const rule = "state with >= 2 contracts created of which >= 1 still open; distin
 func Parts(mode string) func() []mc.Part {
 	return func() []mc.Part {
 		return []mc.Part{
-			mc.ExplorePart("plain", New(Variant{Name: "plain", Mode: mode}), 6, 8, false, rule),
+			mc.ExplorePartC("plain", New(Variant{Name: "plain", Mode: mode}), 6, 8, false, rule,
+				&mc.ConfOpts{Stores: []string{"htlc"}, SkipDenoms: map[string]bool{"stake": true}, MaxPaths: 60}),
 			mc.ExplorePart("cross-chain", New(Variant{Name: "cross-chain", Mode: mode, Cross: true}), 5, 7, false, rule),
 		}
 	}
